@@ -15,7 +15,7 @@ ASSUME = {
     ],
     "C01": ["composition (the words of spell(n) executed in order give decimal(n)) is proved for en, es, fr (spelling drivers); for pt, it, de, nl it is NOT proved: the thorough tier gives bounded evidence only (tools/spell.py)",
             "the drivers are stated on exec_group + format_and_value; the corollary for text2digits composes the driver with text2digits' own contract on paper; the scanner (number inside a sentence) is not covered by the drivers",
-            "A-SPLIT / A-DASH (English hyphenated tens-units): str::split('-') is uninterpreted with one axiom (two dash-free pieces joined by a dash split back into them); the hoisted call exec_group(word.split('-')) is assumed to compute the fold of the word model over the parts",
+            "A-SPLIT / A-DASH (English and French hyphenated tens-units): str::split('-') is uninterpreted with one axiom (dash-free pieces joined by single dashes split back into them); the hoisted call exec_group(word.split('-')) is assumed to compute the fold of the word model over the parts",
             "WordSplitter (daachorse) contract assumed; Italian/German/Dutch values assumed to come from Default::default"],
     "C02": ["whole-stream losslessness of tokenize is assumed inside unit scan (proved per token in unit tok); Vec::drain/insert and [T]::join have assumed contracts"],
     "C03": ["partial correctness: termination of iterator-driven loops and of the apply<->exec_group recursion is not proved"],
